@@ -124,18 +124,23 @@ func checkC11(w *Workload, emit func(n int, region string)) (*Outcome, int) {
 	// truncated one - anything the library remembers about a source it has seen must not outlive the bytes behind it
 	shared := bytes.NewReader(file)
 	step := 1
-	if len(file)-footerOff > 256 {
-		step = (len(file) - footerOff) / 128
+	if len(file)-footerOff > 48 {
+		step = (len(file) - footerOff) / 48
 	}
+	k := 0
 	for n := len(file) - 1; n >= 0; n -= step {
 		if n < footerOff-8 {
-			step = 11
+			step = 23
 		}
+		k++
+		reopen := k%6 == 1
 		prefix := file[:n]
 		o := guard("C11", func() *Outcome {
-			shared.Reset(file)
-			if _, _, rd, err := readAll(f, shared, 1<<20); err != nil || rd.Error() != nil {
-				return viol("C11/baseline", "the complete file is rejected when opened through a reused reader")
+			if reopen {
+				shared.Reset(file)
+				if _, _, rd, err := readAll(f, shared, 1<<20); err != nil || rd.Error() != nil {
+					return viol("C11/baseline", "the complete file is rejected when opened through a reused reader")
+				}
 			}
 			shared.Reset(prefix)
 			recs, _, rd, err := readAll(f, shared, 1<<20)
@@ -161,7 +166,7 @@ func TestC11(t *testing.T) {
 	cfg.gen.MaxList = 3
 	cfg.gen.LongStr = 60
 	rapid.Check(t, func(t *rapid.T) {
-		cfg.gen.Class = rapid.SampledFrom([]string{"", "", "", "thrift-nest"}).Draw(t, "class")
+		cfg.gen.Class = rapid.SampledFrom([]string{"", "", "", "thrift-nest", "tail-forgery"}).Draw(t, "class")
 		w := genWorkload(t, cfg)
 		if len(w.Batches) > 3 {
 			n := 0
